@@ -7,6 +7,7 @@ from hypothesis import strategies as st
 from pyglove.core.views.html import controls
 
 from pgverif import core
+from pgverif.gen import classes
 from pgverif.gen import values
 
 ID = 'C20'
@@ -50,6 +51,10 @@ def strategy(tier):
         st.sampled_from(['P', 'HDoc', 'W']).flatmap(
             lambda n: st.dictionaries(st.sampled_from(['x', 'y'] if n != 'W' else ['a', 'b']), c, max_size=2).map(
                 lambda a: {'$o': n, 'a': a})))
+  # objects whose class name / self-chosen display name is hostile data
+  named = st.one_of(st.builds(lambda t, x: {'$named': t, 'x': x}, _text(2), _text(2)),
+                    st.builds(lambda t, x: {'$renamed': t, 'x': x}, _text(3), _text(2)))
+  leaf = st.one_of(leaf, leaf, leaf, leaf, leaf, named)
   val = st.recursive(leaf, ext, max_leaves=8)
   top = st.one_of(
       st.lists(st.tuples(keys, val), min_size=1, max_size=4, unique_by=lambda kv: (type(kv[0]).__name__, kv[0])).map(
@@ -94,9 +99,88 @@ def benign_of(d):
   return d
 
 
+class Renamed(pg.Object, pg.views.HtmlTreeView.Extension):
+  """An object that shows itself under a name of its own (a field value) through the documented summary hook."""
+  label: pg.typing.Any()
+  x: pg.typing.Any() = None
+
+  def _html_tree_view_summary(self, *, view, name=None, parent=None, root_path=None, **kwargs):
+    del name
+    return view.summary(self, name=str(self.label), parent=parent, root_path=root_path, **kwargs)
+
+
+_NAMED = {}
+
+
+def _named_class(name):
+  """A symbolic class whose name is data (classes made by factories, functors made from lambdas)."""
+  if name not in _NAMED:
+    _NAMED[name] = type(name, (classes.P,), {})
+  return _NAMED[name]
+
+
+def _special(d, plain_dict):
+  """Replaces the descriptors only this module knows ($named, $renamed) by built values inside plain containers."""
+  if isinstance(d, list):
+    return [_special(x, plain_dict) for x in d]
+  if isinstance(d, dict):
+    if '$named' in d:
+      if not isinstance(d['$named'], str) or not d['$named']:
+        raise core.InvalidCase(d)
+      return _Prebuilt(_named_class(d['$named'])(x=_build(d.get('x'), plain_dict)))
+    if '$renamed' in d:
+      if not isinstance(d['$renamed'], str):
+        raise core.InvalidCase(d)
+      return _Prebuilt(Renamed(label=d['$renamed'], x=_build(d.get('x'), plain_dict)))
+    return {k: _special(x, plain_dict) for k, x in d.items()}
+  return d
+
+
+class _Prebuilt:
+  def __init__(self, v):
+    self.v = v
+
+
 def _build(d, plain_dict):
-  v = values.build(d, symbolic=not plain_dict)
-  return v
+  d = _special(d, plain_dict)
+  if isinstance(d, _Prebuilt):
+    return d.v
+  # (prebuilt values sit inside containers: build the containers around them)
+
+  def rec(x):
+    if isinstance(x, _Prebuilt):
+      return x.v
+    if isinstance(x, list):
+      items = [rec(y) for y in x]
+      return items if plain_dict else pg.List(items)
+    if isinstance(x, dict) and '$d' in x:
+      if not isinstance(x['$d'], list):
+        raise core.InvalidCase(x)
+      out = {}
+      for kv in x['$d']:
+        if not (isinstance(kv, list) and len(kv) == 2 and isinstance(kv[0], (str, int)) and not isinstance(kv[0], bool) and kv[0] != ''):
+          raise core.InvalidCase(x)
+        out[kv[0]] = rec(kv[1])
+      return out if plain_dict else pg.Dict(out)
+    if isinstance(x, dict) and '$o' in x and _has_prebuilt(x):
+      cls = classes.CLASSES.get(x['$o'])
+      if cls is None:
+        raise core.InvalidCase(x)
+      return cls(**{k: rec(y) for k, y in x.get('a', {}).items()})
+    return values.build(x, symbolic=not plain_dict)
+  if _has_prebuilt(d):
+    return rec(d)
+  return values.build(d, symbolic=not plain_dict)
+
+
+def _has_prebuilt(x):
+  if isinstance(x, _Prebuilt):
+    return True
+  if isinstance(x, list):
+    return any(_has_prebuilt(y) for y in x)
+  if isinstance(x, dict):
+    return any(_has_prebuilt(y) for y in x.values())
+  return False
 
 
 class _Skel(html.parser.HTMLParser):
@@ -162,8 +246,11 @@ def _strings(d, keys_out, leaves_out):
   elif isinstance(d, dict):
     if '$d' in d:
       for k, v in d['$d']:
-        keys_out.append(k)
+        if not (isinstance(v, dict) and '$renamed' in v):
+          keys_out.append(k)      # (a renamed object shows its own label in place of its key)
         _strings(v, keys_out, leaves_out)
+    elif '$named' in d or '$renamed' in d:
+      _strings(d.get('x'), keys_out, leaves_out)
     elif '$o' in d:
       for v in d.get('a', {}).values():
         _strings(v, keys_out, leaves_out)
